@@ -243,7 +243,8 @@ type mergeBounds struct {
 	triples   []int    // menu subset for triples (nil = all)
 	modes     []uint32 // chunk modes
 	depth2    bool
-	d2Menu    []int // menu items combined with depth-1 results at depth 2
+	d2Modes   []uint32 // chunk modes for which depth 2 is explored (nil = all)
+	d2Menu    []int    // menu items combined with depth-1 results at depth 2
 	depth3    bool
 	fullDrops bool
 }
@@ -320,6 +321,15 @@ func genMerges(menuName string, b mergeBounds, emit func(enum.MergeCase)) {
 		if !b.depth2 {
 			continue
 		}
+		if b.d2Modes != nil {
+			in := false
+			for _, m := range b.d2Modes {
+				in = in || m == mode
+			}
+			if !in {
+				continue
+			}
+		}
 		// ---- depth 2: one representative per distinct depth-1 state
 		var level2 []st
 		seen2 := map[string]bool{}
@@ -367,12 +377,12 @@ func forDropsOf(counts []int, full bool, f func(drops [][]int, ok []bool)) {
 
 func textBounds(tier string) mergeBounds {
 	if tier == "quick" {
-		return mergeBounds{maxLen1: 3, triples: []int{1, 2, 3}, modes: []uint32{1, 1026}, depth2: true, d2Menu: []int{3}, fullDrops: false}
+		return mergeBounds{maxLen1: 3, triples: []int{1, 3, 7}, modes: []uint32{1, 1026}, depth2: true, d2Modes: []uint32{1}, d2Menu: []int{7}, fullDrops: false}
 	}
-	return mergeBounds{maxLen1: 3, triples: nil, modes: []uint32{1, 2, 1024, 1026}, depth2: true, d2Menu: []int{0, 1, 2, 3, 4, 5, 6}, depth3: true, fullDrops: false}
+	return mergeBounds{maxLen1: 3, triples: nil, modes: []uint32{1, 2, 1024, 1026}, depth2: true, d2Menu: []int{0, 1, 2, 3, 4, 5, 6, 7}, depth3: true, fullDrops: false}
 }
 
-var mergeRule = "explicit-state exploration of the merge state space on the real code: states = segments reachable from a 7-item segment menu (empty batch; single doc with a single-hit-eligible term; two 2-doc batches with identical field lists (byte-copy paths); overlapping field list with a composite field whose locations name other fields; disjoint field list with long array positions and the empty term; 3-doc batch with a field-less document and an id shared with another item), each input built in memory or persisted+re-opened; transitions = Merge(ordered list of <=3 states, one drop bitmap per input) for EVERY drop vector over {nil, empty, every subset} at depth 1, and {nil, empty, singletons, complements, all} for inputs with >3 documents at depth >= 2; chunk modes as bounded. Depth-1 results are deduplicated by canonical state key (semantic dump + per-term single-hit encoding class + chunk mode) computed from the reference model and cross-checked against the key observed on the implementation; each distinct state is merged again (alone, with menu items on either side) at depth 2 (and once more at depth 3 in thorough). A successor is computed by replaying the whole expression on fresh objects. Non-trivial = merge with >= 1 survivor."
+var mergeRule = "explicit-state exploration of the merge state space on the real code: states = segments reachable from an 8-item segment menu (frequencies / lengths / location values at varint boundaries; empty batch; single doc with a single-hit-eligible term; two 2-doc batches with identical field lists (byte-copy paths); overlapping field list with a composite field whose locations name other fields; disjoint field list with long array positions and the empty term; 3-doc batch with a field-less document and an id shared with another item), each input built in memory or persisted+re-opened; transitions = Merge(ordered list of <=3 states, one drop bitmap per input) for EVERY drop vector over {nil, empty, every subset} at depth 1, and {nil, empty, singletons, complements, all} for inputs with >3 documents at depth >= 2; chunk modes as bounded. Depth-1 results are deduplicated by canonical state key (semantic dump + per-term single-hit encoding class + chunk mode) computed from the reference model and cross-checked against the key observed on the implementation; each distinct state is merged again (alone, with menu items on either side) at depth 2 (and once more at depth 3 in thorough). A successor is computed by replaying the whole expression on fresh objects. Non-trivial = merge with >= 1 survivor."
 
 func init() {
 	for _, which := range []string{"C05", "C06"} {
@@ -383,8 +393,8 @@ func init() {
 			Rule:        mergeRule,
 			Assumptions: append([]string{"deletion bitmaps only contain existing document numbers; output paths do not exist before Merge", "state-key deduplication merges states that differ only in the byte order of independent sections (Go map order), which no reader or merger consults"}, batchAssumptions...),
 			Bounds: map[string]string{
-				"quick":    "depth 1: all lists of length <=2 over 7 items + triples over {M1,M2,M3}, every drop vector, 3 provenance patterns, chunk modes {1,1026}; depth 2: every distinct depth-1 state (lists <=2) merged alone and with M3 on either side, reduced drop alphabet",
-				"thorough": "depth 1: all lists of length <=3 over 7 items, every drop vector, chunk modes {1,2,1024,1026}; depth 2 with all 7 items; depth 3 for distinct depth-2 single-input states",
+				"quick":    "depth 1: all lists of length <=2 over 8 items + triples over {M1,M3,M7}, every drop vector, 3 provenance patterns, chunk modes {1,1026}; depth 2: every distinct depth-1 state (lists <=2) merged alone and with M7 on either side (chunk mode 1), reduced drop alphabet",
+				"thorough": "depth 1: all lists of length <=3 over 8 items, every drop vector, chunk modes {1,2,1024,1026}; depth 2 with all 8 items; depth 3 for distinct depth-2 single-input states",
 			},
 			New: func() interface{} { return &enum.MergeCase{} },
 			Gen: func(tier string, emit func(interface{})) {
